@@ -1,0 +1,10 @@
+//go:build verif && vfs
+
+package litestream
+
+import "context"
+
+// VerifPollOnce runs a single replica poll step of a VFS file so that the
+// verification harness (/verif) can place poll points deterministically.
+// It is compiled only with -tags "verif vfs".
+func (f *VFSFile) VerifPollOnce(ctx context.Context) error { return f.pollReplicaClient(ctx) }
